@@ -980,7 +980,10 @@ class AttrParser(BaseParser):
         else:
             new_type = cast(RankedStructure[IntegerType | IndexType], type)
             new_data = cast(Sequence[int], data_values)
-            return DenseIntOrFPElementsAttr.from_list(new_type, new_data)
+            try:
+                return DenseIntOrFPElementsAttr.from_list(new_type, new_data)
+            except ValueError as e:  # value out of range for the element type
+                self.raise_error(str(e))
 
     def _parse_builtin_dense_attr(self) -> DenseIntOrFPElementsAttr:
         return self.parse_dense_int_or_fp_elements_attr(None)
